@@ -379,6 +379,7 @@ func checkC07(w *World, r *Report) {
 		r.undecided("C07.derive", nil, "_args_ctx", token.NoPos, "function no longer resolves")
 	}
 
+	singleOutcomeRule(w, r, e, "C07.single-outcome")
 	// handler
 	if reg, ok := m.regions["try"]; ok {
 		nh := 0
